@@ -1,8 +1,11 @@
 SPECIFICATION Spec
 CONSTANTS
-  SectionOrder <- Order2
+  SectionOrder <- Order1
   Keys <- Keys2
   ValueClasses <- AllClasses
+  RawAlphabet <- NoAlpha
+  RawLen = 0
+  RawPrefixes <- NoPrefix
   MaxKeys = 2
-INVARIANT RoundTripInv CommentInv
+INVARIANT Emit
 CHECK_DEADLOCK FALSE
